@@ -335,7 +335,15 @@ func (s svg) draw(dst backend.Canvas, attrs *attributes, img *SVGImage, dims dra
 	dst.State().Transform(matrix.Translation(x, y))
 	width, height := dims.concreteWidth, dims.concreteHeight
 	if !s.isRoot {
-		width, height = dims.point(attrs.width, attrs.height)
+		// as for the root element, a missing value defaults to 100% (auto)
+		w, h := attrs.width, attrs.height
+		if w.U == 0 {
+			w = Value{100, Perc}
+		}
+		if h.U == 0 {
+			h = Value{100, Perc}
+		}
+		width, height = dims.point(w, h)
 	}
 
 	viewbox := attrs.viewbox
